@@ -6,7 +6,9 @@ cd "$(dirname "$0")"
 export GOFLAGS=-mod=mod GOPROXY=off GOSUMDB=off GOTOOLCHAIN=local
 export VERIF_ROOT="$PWD"
 mkdir -p bin evidence replays
-cp /repo/go.sum go.sum 2>/dev/null
+REPO="${VERIF_REPO:-/repo}"  # seed testing may point this at a scratch worktree; registered commands never set it
+export VERIF_REPO="$REPO"
+cp "$REPO/go.sum" go.sum 2>/dev/null
 prop="$1"; shift
 tier="${VERIF_TIER:-quick}"
 if [ "${1:-}" = "quick" ] || [ "${1:-}" = "thorough" ]; then tier="$1"; shift; fi
@@ -14,7 +16,7 @@ export VERIF_TIER="$tier"
 (
   flock 9
   go build -tags verif -o bin/vcheck ./cmd/vcheck || exit 90
-  (cd /repo && go build -o "$VERIF_ROOT/bin/goverter" ./cmd/goverter) || exit 91
+  (cd "$REPO" && go build -o "$VERIF_ROOT/bin/goverter" ./cmd/goverter) || exit 91
   [ -d bin/gocache-template ] || tools/mkcache.sh >/dev/null 2>&1 || exit 92
 ) 9>bin/.lock
 rc=$?
